@@ -208,8 +208,12 @@ def extra_coverage():
         "oracles": ["falcon executor on lifted IL", "Lean IL semantics on dumped IL", "Lean x86 specification (both modes)", "host CPU single-step (amd64)"],
         "proved_helpers": PROVED_HELPERS,
         "mirrored_class_syntactic_check": MIRRORED_CLASS,
-        "proved_instruction_classes": ["amd64 mov/add/sub/cmp/and/or/xor r,r", "amd64 mov/add/sub/cmp/and/or/xor r,imm(width of r)", "amd64 inc/dec/neg/not r"],
-        "unproved_classes": "every memory-operand form, every other mnemonic, and all of 32-bit mode: differential only (unproved_mnemonics lists the mnemonics with at least one unproved form, i.e. all of them)",
+        "proved_instruction_classes": ["amd64 mov/add/sub/cmp/and/or/xor r,r", "amd64 mov/add/sub/cmp/and/or/xor r,imm(width of r)",
+                                       "amd64 inc/dec/neg/not r",
+                                       "amd64 mov/add/sub/cmp/and/or/xor r,[mem]", "amd64 mov/add/sub/cmp/and/or/xor [mem],r",
+                                       "amd64 mov/add/sub/cmp/and/or/xor [mem],imm(width of the operand)", "amd64 lea r64/r32/r16,[mem]",
+                                       "memory operands: base/index any 64-bit register or rip, any scale/disp, no segment override, 64-bit address size, mapped non-wrapping access"],
+        "unproved_classes": "memory operands with a segment override or a 67 prefix, every other mnemonic, and all of 32-bit mode: differential only (unproved_mnemonics lists the mnemonics with at least one unproved form, i.e. all of them)",
         "unproved_mnemonics": UNPROVED_MNEMONICS,
         "lifted_but_not_compared": NOT_COMPARED,
     }
